@@ -12,7 +12,7 @@
    the counter ([fits m ops]: snext m + length ops < 2^63 - 1).  The id allocation across
    the counter's wrap is covered by c06_ids_unique_wrap. *)
 From Coq Require Import ZArith List Bool.
-From FV Require Import Generated.Consts C05.Model C05.Spec C05.Machine C05.Vid C05.VidProofs C06.Proofs C06.Others.
+From FV Require Import Generated.Consts C05.Model C05.Spec C05.Machine C05.Vid C05.VidProofs C06.Proofs C06.Others C06.HandoverModel C06.HandoverProofs.
 Import ListNotations.
 Open Scope Z_scope.
 
@@ -135,6 +135,40 @@ Theorem c06_visible_ids_transparent : forall ops,
 Proof. exact vrun_both. Qed.
 Print Assumptions c06_visible_ids_transparent.
 
+(* ---- the hand-over phase of a tick at the grain at which Cancel interleaves
+   (C06/HandoverModel.v: one [MHandover] per expired node — the re-check of the refer map
+   and the send on Chan() are one step under the mutex —, API calls in between) ----
+   "after a true return that timer is never delivered": for EVERY interleaving of Cancel /
+   Start / IsScheduled calls with the hand-overs, before and after, a Cancel that returns
+   true is never followed by a hand-over of that timer.  [hwf]: pending nodes distinct, a
+   node already decided to fire (the heap's one-shot nodes) is out of the map. *)
+Theorem c06_cancel_then_no_handover : forall s before id after,
+  hwf s ->
+  let s1 := fst (mrun s before) in
+  snd (mstep s1 (MCancel id)) = ECancel id true ->
+  ~ In (EDeliver id) (snd (mrun (fst (mstep s1 (MCancel id))) after)).
+Proof. exact cancel_then_no_handover. Qed.
+Print Assumptions c06_cancel_then_no_handover.
+
+(* without interleaving the phase is the atomic expiry of the machine the other theorems
+   speak about: the wheel's walk of a detached bucket = the fold of expire_one; the heap's
+   decisions followed by the hand-overs = htick (refer map and delivered ids) *)
+Theorem c06_handover_wheel_atomic : forall bucket w r o c,
+  let res := fold_left expire_one bucket (w, r, o) in
+  let ph := mrun (mkHst r (wheel_items bucket) c) (repeat MHandover (length bucket)) in
+  href (fst ph) = snd (fst res) /\ map fst (snd res) = map fst o ++ delivered (snd ph).
+Proof. exact wheel_phase. Qed.
+Print Assumptions c06_handover_wheel_atomic.
+
+Theorem c06_handover_heap_atomic : forall h r now c,
+  NoDup (map nid h) ->
+  let D := hsort (filter (is_due now) h) in
+  let L := heap_items r D in
+  let ph := mrun (mkHst (heap_refer r D) L c) (repeat MHandover (length L)) in
+  href (fst ph) = snd (fst (htick h r now)) /\ delivered (snd ph) = map fst (snd (htick h r now)).
+Proof. exact heap_phase_is_htick. Qed.
+Print Assumptions c06_handover_heap_atomic.
+
 (* "no such ordering stalls the scheduler": whenever a request is pending the worker's arm
    for it is enabled and consumes it, the ticker arm is always enabled; no step waits for
    another (the API calls' critical sections are single steps: the request is sent after
@@ -183,6 +217,21 @@ Example c06_example_id_reuse :
   o1 = [OId false 1; OFlag true; OBool false true] /\
   o2 = [OId false 1; OFlag true; OFlag true; ONone; ODeliv []; OFlag true; ONone; ODeliv [(1, 9)]; ONum 0].
 Proof. vm_compute. split; reflexivity. Qed.
+
+(* a heap tick with a decided one-shot node 2 and a repeating node 1 pending; the cancel of 1
+   arrives before its hand-over: 2 is delivered, 1 is dropped *)
+Example c06_example_handover :
+  let s := mkHst [1] [mkP (mkNode 2 5 0) true; mkP (mkNode 1 5 3) false] 2 in
+  hwf s /\
+  snd (mrun s [MCancel 1; MHandover; MQuery 1; MHandover]) =
+    [ECancel 1 true; EDeliver 2; EQuery 1 false; EDrop 1] /\
+  snd (mrun s [MHandover; MHandover; MCancel 1]) = [EDeliver 2; EDeliver 1; ECancel 1 true].
+Proof.
+  split; [|split; vm_compute; reflexivity].
+  unfold hwf. cbn. split; [repeat constructor; cbn; intuition discriminate|].
+  split; [intros p [<-|[<-|[]]] Hd; cbn in *; [intros [H|[]]; discriminate|discriminate]|].
+  split; repeat constructor; discriminate.
+Qed.
 
 Example c06_example_reachable :
   reachable (fst (run (init_wheel 1000 0) [Start 1; HandleAdd])) /\
